@@ -42,7 +42,7 @@ CHECKS.update({
 
 CHECKS.update({
  "C11": ("exploration", "runtime monitor: reference-model oracle + consumption monitor on the reader",
-         "SingleDetect on every length 0..4096 x four content families plus m-discriminating contents (found by bias scanning and by construction) around the 320-bit and 10240-bit switches; oracle = reference poker with the length-appropriate m; the recording reader checks that exactly numByte bytes are consumed, also under short reads; 70000 repeated calls in one process must keep deciding alike.", REF, "4/C11"),
+         "SingleDetect on every length 0..4096 x four content families, requests of 2^16..2^20 bytes dominated by one byte value, plus m-discriminating contents (found by bias scanning and by construction) around the 320-bit and 10240-bit switches; oracle = reference poker with the length-appropriate m; the recording reader checks that exactly numByte bytes are consumed, also under short reads; 70000 repeated calls in one process must keep deciding alike.", REF, "4/C11"),
  "C15": ("exploration", "runtime monitor: differential comparison of entry points (bit-identical)",
          "On each generated byte string every byte-level entry point is compared bit for bit with the bit-level one on the harness's own MSB-first expansion, every registry runner with the standard's default, Round15/Round12 with the runners, the file loader with the expansion (also for contents that look like another format and through symbolic links); registry order is identified on inputs where all fifteen defaults differ; cases run concurrently with mixed lengths in one process.", "Trusted base: the harness's MSB-first expansion; Go float64 equality. No reference statistics involved.", "4/C15"),
  "C16": ("exploration", "runtime monitor: invariant predicates on every result",
@@ -50,7 +50,7 @@ CHECKS.update({
  "C17": ("exploration", "runtime monitor: metamorphic relations",
          "Complement, reversal, rotation, block permutation and tail rewriting applied to generated sequences; the library's result on the transformed input must match its result on the original within 1e-8 (with the stated Q/variant swaps).", "Metamorphic: the library is compared with itself; trusted base is the transformation code in the harness.", "4/C17"),
  "C18": ("exploration", "runtime monitor: input snapshots, solo-vs-concurrent differential, Go race detector",
-         "Input (and canary-filled spare capacity) snapshots around every call, repeat-call equality, a soak of 70000 repeated calls per cheap entry point, weak-cache-key adversarial pairs (same prefix/suffix, same CRC-64/CRC-32/Adler-32, buffer re-use), 2/8/64 goroutines on shared and private buffers and mixed input lengths at once (thorough: several DFT plan lengths >= 2^24 points) compared with solo results, and the same mixes in a -race build with DATA RACE reports counted.", "Trusted base: Go race detector (reports races of observed executions only).", "4/C18"),
+         "Input (and canary-filled spare capacity) snapshots around every call, repeat-call equality, a soak of 70000 repeated calls per cheap entry point, weak-cache-key adversarial pairs (same prefix/suffix, same CRC-64/CRC-32/Adler-32, buffer re-use), one caller-owned bit buffer refilled in place between calls through every test, 2/8/64 goroutines on shared and private buffers and mixed input lengths at once (thorough: several DFT plan lengths >= 2^24 points) compared with solo results, and the same mixes in a -race build with DATA RACE reports counted.", "Trusted base: Go race detector (reports races of observed executions only).", "4/C18"),
 })
 
 TOOLS = "Trusted base: Go toolchain (build, race detector, deadlock detector), strace/taskset as perturbation, the library's own functions as the reference for report values (C01-C05 decide those), the header-label parser in the harness. The only in-package instrumentation is /verif/overlay/rddetector/zz_verif_test.go injected with go test -overlay (tag verif); /repo is never written."
